@@ -49,6 +49,14 @@ def parse(c):
     """returns (kind, payload): ('ok', nodelist|None) | ('err', exc) | ('crash', exc)"""
     from pylatexenc import latexwalker
     from pylatexenc.latexnodes import parsers
+    for ps_ in c.get('pre') or []:
+        # earlier parses in the same process with the same context and mode (outcome irrelevant here): nothing they leave
+        # behind in shared objects may change the parse that follows (the model answers for the last document alone)
+        d_ = dict(c); d_['s'] = ps_; d_['pre'] = None
+        try:
+            parse(d_)
+        except RecursionError:
+            pass
     w = make_walker(c)
     ps = None
     if c.get('ps'):
